@@ -60,3 +60,14 @@ func VerifH_C10_RowPipeline(mbW, mbH, pic int) {
 	verifapi.CheckHB("row pipeline: every pair of conflicting accesses of different rows / the token recorder is ordered by the wait/signal events")
 	verifapi.Cover(true, "pipeline analysed")
 }
+
+// VerifH_C10_LossyForkJoin: fork/join regions of the lossy encoder's set-up on a concrete picture with
+// GOMAXPROCS=n (race_check): importImage's luma row workers and chroma row-pair workers, and the
+// macroblock analysis workers.
+func VerifH_C10_LossyForkJoin(w, h, n int) {
+	verifapi.Procs(n)
+	img := vC11Picture(w, h, 3)
+	enc := NewEncoder(img, DefaultConfig(60))
+	enc.analysis()
+	verifapi.Cover(enc.mbW*enc.mbH >= 1, "import and analysis ran")
+}
